@@ -34,13 +34,17 @@ Owner(a) == CASE a \in {"a1", "a2"} -> 1
               [] a \in {"c1", "c2"} -> 3
               [] OTHER -> 0
 
+\* loopback names: "lo" = 127.0.0.1 / ::1, "lo2" = 127.0.0.2 (another address of 127.0.0.0/8; IPv4 only,
+\* used by binds and UDP probes of the directed loopback-alias scenario)
+Lo == {"lo", "lo2"}
+
 \* address a is configured on host h (loopback is implicit on every host)
-Local(h, a) == a = "lo" \/ (Owner(a) = h /\ h \in Hosts)
+Local(h, a) == a \in Lo \/ (Owner(a) = h /\ h \in Hosts)
 
 \* host that owns the destination of a packet sent by `from` to address a
 \* (0 = nobody: unknown destination - a foreign address no host has, e.g. "x", or the
 \* unspecified address "wild" used as a destination)
-Target(from, a) == IF a = "lo" THEN from
+Target(from, a) == IF a \in Lo THEN from
                    ELSE IF Owner(a) \in Hosts THEN Owner(a) ELSE 0
 
 VARIABLES
